@@ -43,6 +43,7 @@
 #include <string>
 #include <sys/file.h>
 #include <sys/stat.h>
+#include <sys/wait.h>
 #include <unistd.h>
 #include <vector>
 
@@ -500,6 +501,13 @@ public:
   }
   void commandProcessHadOutput(Command*, ProcessHandle, StringRef d) override { std::lock_guard<std::mutex> l(m); o.output += d.str(); }
   void commandProcessFinished(Command*, ProcessHandle, const ProcessResult&) override {}
+  // reuse scenarios, cancelAt == -1: cancel from inside the FIRST commandProcessStarted callback (the lane thread is
+  // inside spawnProcess at that moment)
+  void commandProcessStarted(Command*, ProcessHandle) override {
+    bool fire = false;
+    { std::lock_guard<std::mutex> l(m); fire = cancelAt == -1 && !cancelIssued; if (fire) cancelIssued = true; }
+    if (fire) cancel();
+  }
   void cycleDetected(const std::vector<core::Rule*>&) override { std::lock_guard<std::mutex> l(m); o.cycle = true; }
 };
 
@@ -1048,6 +1056,32 @@ int main(int argc, char** argv) {
       long n = J.runReuse({b.desc, b.fail, b.kind, b.slow, b.lanes, b.edit, 0});
       res.maxOf("max_status_callbacks_per_build", n);
       for (long c = 1; c <= n; ++c) J.runReuse({b.desc, b.fail, b.kind, b.slow, b.lanes, b.edit, c});
+      // cancellation from inside commandProcessStarted (once per description and lane count): in a forked child with
+      // a watchdog, because a deadlock there leaves the lane thread stuck inside the queue for good
+      if (b.fail < 0 && b.slow < 0 && b.edit == 0) {
+        Judge::Reuse r{b.desc, -1, 0, -1, b.lanes, 0, -1};
+        res.count("reuse_scenarios_cancel_inside_process_started");
+        fflush(nullptr);
+        pid_t pid = fork();
+        if (pid == 0) {
+          alarm(10);  // SIGALRM's default action ends the child
+          vj::Result sub;
+          Judge JJ{sub, descs};
+          gScratch += "/ps" + std::to_string((long)getpid());
+          mkdir(gScratch.c_str(), 0755);
+          JJ.runReuse(r);
+          wipe(gScratch, true);
+          _exit(sub.violations.empty() ? 0 : 3);
+        }
+        int st = 0;
+        waitpid(pid, &st, 0);
+        if (WIFSIGNALED(st) && WTERMSIG(st) == SIGALRM)
+          res.violate(gProp + ".ru-cancel-inside-process-started-callback-deadlocks",
+                      descs[b.desc].id + " [" + std::to_string(b.lanes) + " lane(s)]: the delegate cancelled the build from inside commandProcessStarted(); 10 s later the build call had not returned "
+                      "(the lane thread calls the callback while it holds the process group mutex that cancelAllJobs() takes)", J.specOf(r));
+        else if (!WIFEXITED(st) || WEXITSTATUS(st) != 0)
+          res.violate(gProp + ".ru-cancel-inside-process-started-callback-other", descs[b.desc].id + ": scenario child ended with status " + std::to_string(st), J.specOf(r));
+      }
       res.count("work_items_done");
     }
     res.count("builds", gBuilds);
